@@ -318,6 +318,182 @@ def reduce_end_to_end(chk, tier):
                           {"Na": Na, "Nk": Nk, "size": size, "KI": KI.tolist(), "cc": cc.tolist()})
 
 
+def real_conf(size, rank, mpi=True, level=0, region=0):
+    """a REAL DistributedConfiguration made to believe it is rank `rank` of `size` processes (no transport behind it)"""
+    from quantarhei.core.parallel import DistributedConfiguration
+
+    class Comm:
+        def Barrier(self):
+            pass
+    dc = DistributedConfiguration()
+    dc.have_mpi, dc.comm, dc.size, dc.rank = bool(mpi), Comm(), size, rank
+    dc.parallel_level, dc.parallel_region = level, region
+    dc.silent = True
+    return dc
+
+
+def region_history(case):
+    """(level, region, raised) after every start/finish of the real object"""
+    dc = real_conf(case["size"], 0, case["mpi"], case["l0"], case["g0"])
+    obs = []
+    for o in case["ops"]:
+        raised = False
+        try:
+            if o:
+                dc.start_parallel_region()
+            else:
+                dc.finish_parallel_region()
+        except Exception:
+            raised = True
+        obs.append((int(dc.parallel_level), int(dc.parallel_region), raised))
+    return obs
+
+
+def run_program(size, prog):
+    """a program of region openings/closings and range requests, executed by every simulated rank through the public
+    functions; returns per request (depth, start, stop, [block of each rank])"""
+    import quantarhei as qr
+    from quantarhei.core.managers import Manager
+    m = Manager()
+    old = m.parallel_conf
+    verb = (m.log_conf.verbosity, m.log_conf.fverbosity)
+    per_rank = []
+    try:
+        for rank in range(size):
+            m.parallel_conf = real_conf(size, rank)
+            got, depth = [], 0
+            for it in prog:
+                if it == "S":
+                    qr.start_parallel_region()
+                    depth += 1
+                elif it == "F":
+                    qr.close_parallel_region()
+                    depth -= 1
+                else:
+                    _, kind, a, b = it
+                    bl = [int(i) for i in qr.block_distributed_range(a, b)]
+                    got.append((depth, kind, a, b, bl))
+            per_rank.append((got, int(m.parallel_conf.parallel_level), int(m.parallel_conf.parallel_region)))
+    finally:
+        m.parallel_conf = old
+        m.log_conf.verbosity, m.log_conf.fverbosity = verb
+    return per_rank
+
+
+def gen_program(r, maxdepth=3, n=10):
+    prog, depth = ["S"], 1
+    for _ in range(n):
+        x = r.random()
+        if x < 0.3 and depth < maxdepth:
+            prog.append("S")
+            depth += 1
+        elif x < 0.55 and depth > 1:
+            prog.append("F")
+            depth -= 1
+        else:
+            a = r.randint(-3, 3)
+            prog.append(("Q", "range", a, a + r.randint(0, 12)))
+    while depth > 1:
+        prog.append("F")
+        depth -= 1
+        if r.random() < 0.7:
+            a = r.randint(-3, 3)
+            prog.append(("Q", "range", a, a + r.randint(0, 12)))
+    prog.append("F")
+    return prog
+
+
+def regions(chk, tier, replay=None):
+    """parallel-region bookkeeping: histories of start/finish on real DistributedConfiguration objects against
+    Model/C20regions.v, and whole programs with nested regions run by every simulated rank"""
+    r = cm.rng("regions")
+    hist = []
+    if replay is not None and replay.get("kind") == "regions":
+        hist = [replay]
+    elif replay is None:
+        corpus = [[1, 1, 0, 1, 1, 0, 0, 0], [1, 0, 0], [0], [1, 1, 1, 0, 0, 0, 1, 0]]
+        for ops in corpus:
+            for size in (1, 3):
+                hist.append({"kind": "regions", "size": size, "mpi": True, "l0": 0, "g0": 0, "ops": ops})
+        for k in range(60 if tier == "quick" else 600):
+            n = r.randint(1, 14)
+            ops, depth = [], 0
+            for _ in range(n):
+                o = 1 if (depth == 0 and r.random() < 0.9) or r.random() < 0.5 else 0
+                ops.append(o)
+                depth += 1 if o else -1
+            l0 = r.choice([0, 0, 0, 1, 2])
+            hist.append({"kind": "regions", "size": r.choice([1, 2, 4, 7]), "mpi": r.random() < 0.85, "l0": l0,
+                         "g0": l0 + r.choice([0, 0, 1]), "ops": ops})
+    items = []
+    for c in hist:
+        obs = region_history(c)
+        sh = c["mpi"] and c["size"] > 1
+        items.append("(%s,%s,%s,%s,%s)" % ("true" if sh else "false", cm.zlit(c["l0"]), cm.zlit(c["g0"]),
+                                            cm.clist(["true" if o else "false" for o in c["ops"]]),
+                                            cm.clist(["(%s,%s,%s)" % (cm.zlit(a), cm.zlit(b), "true" if x else "false") for (a, b, x) in obs])))
+        chk.count("kind:regions")
+        chk.count("regions:sharing" if sh else "regions:not_sharing")
+        if any(x for (_, _, x) in obs):
+            chk.count("regions:raised")
+        chk.case(("regions", c["size"], c["mpi"], c["l0"], c["g0"], tuple(c["ops"])), sh and len(c["ops"]) >= 3,
+                 sample={"case": c, "impl": obs})
+    if items:
+        body = ("Definition cs : list rcase := %s.\nEval vm_compute in (bad rcase_agrees cs).\n" % cm.clist(items))
+        (rc, out), = cm.coq_eval(PID + "_regions", [cm.HEADER + "From QV Require Import Base.Util Model.C20regions.\n" + body])
+        if rc != 0:
+            chk.violation("correspondence:coq_error", "coqc failed on region histories: %s" % out[-600:], "correspondence",
+                          {"kind": "regions"}, found_input=False)
+        else:
+            bad = cm.parse_natlist(cm.parse_evals(out)[0])
+            chk.corr["cases"] += len(items)
+            chk.corr["disagreements"] += len(bad)
+            for i in bad[:3]:
+                chk.violation("correspondence:regions", "start/finish_parallel_region history %s: (level, region, raised) observed %s "
+                              "differs from Model/C20regions.v" % (hist[i], region_history(hist[i])), "correspondence", hist[i])
+    # whole programs
+    progs = []
+    if replay is not None and replay.get("kind") == "program":
+        progs = [replay]
+    elif replay is None:
+        progs.append({"kind": "program", "size": 3, "prog": ["S", ["Q", "range", 0, 7], "S", "F", ["Q", "range", 0, 7], "S", "S", "F",
+                                                          ["Q", "range", 2, 9], "F", ["Q", "range", -1, 4], "F"]})
+        for k in range(12 if tier == "quick" else 150):
+            progs.append({"kind": "program", "size": r.choice([2, 3, 4, 6]), "prog": gen_program(r)})
+    for c in progs:
+        prog = [tuple(x) if isinstance(x, list) else x for x in c["prog"]]
+        size = c["size"]
+        chk.count("kind:program")
+        try:
+            per_rank = run_program(size, prog)
+        except Exception as e:
+            chk.violation("program:exception", "a well-nested program of parallel regions raised %r (size=%d, program %s)" % (e, size, prog),
+                          "monitor", c)
+            continue
+        nreq = len(per_rank[0][0])
+        chk.case(("program", size, tuple(prog)), nreq >= 2)
+        for rank, (_, lvl, reg) in enumerate(per_rank):
+            if (lvl, reg) != (0, 0):
+                chk.violation("program:not_restored", "after a balanced program rank %d of %d is left at parallel_level=%d "
+                              "parallel_region=%d instead of 0, 0 (program %s)" % (rank, size, lvl, reg, prog), "monitor", c)
+                break
+        for q in range(nreq):
+            depth, kind, a, b, _ = per_rank[0][0][q]
+            blocks = [per_rank[rank][0][q][4] for rank in range(size)]
+            if depth == 1:
+                msg = monitor_partition(blocks, a, b)
+            else:
+                msg = None
+                for rk, bl in enumerate(blocks):
+                    if bl != list(range(a, b)):
+                        msg = "nesting depth %d: rank %d got %s instead of the whole range(%d,%d)" % (depth, rk, bl, a, b)
+                        break
+            if msg:
+                chk.violation("program:not_partition", "request no. %d (block_distributed_%s(%d,%d) at nesting depth %d) of the program %s "
+                              "run by %d ranks: %s" % (q, kind, a, b, depth, prog, size, msg), "monitor", c)
+                break
+
+
 def main():
     chk = cm.Check(PID, args.tier)
     chk.rule = ("exhaustive grid over (size, start, stop) for _calculate_ranges and for block_distributed_range, "
@@ -325,13 +501,14 @@ def main():
                 "non-trivial when the range is non-empty and size >= 2; distinct by (kind,size,a,b)")
     chk.assumptions = ["MPI transport (Reduce/Allreduce/Send/Recv) is not modelled: a rank is simulated by a stub "
                        "DistributedConfiguration(size, rank, parallel_level=1) installed in the Manager",
-                       "Python's // and % on ints with positive divisor are Z.div / Z.modulo"]
+                       "Python's // and % on ints with positive divisor are Z.div / Z.modulo",
+                       "parallel regions: real DistributedConfiguration objects with have_mpi/size/rank set by hand and a no-op Barrier"]
     chk.prove()
     import translate
     translate.static_tie(cm, chk, PID, cm.REPO)      # second, static tie: model regenerated from the current source
     if args.replay:
         rep = json.load(open(args.replay))
-        cases = [rep["input"]] if isinstance(rep.get("input"), dict) and "kind" in rep["input"] else []
+        cases = [rep["input"]] if isinstance(rep.get("input"), dict) and rep["input"].get("kind") in ("ranges", "range", "list", "array") else []
     else:
         cases = []
         for (size, start, stop) in grid(args.tier):
@@ -358,6 +535,11 @@ def main():
     run(chk, cases)
     if not args.replay:
         reduce_end_to_end(chk, args.tier)
+        regions(chk, args.tier)
+    else:
+        rep = json.load(open(args.replay))
+        if isinstance(rep.get("input"), dict) and rep["input"].get("kind") in ("regions", "program"):
+            regions(chk, args.tier, rep["input"])
     chk.finish()
 
 
